@@ -195,7 +195,7 @@ def crash_site(log):
             t = re.sub(r"'[^']*'", "", t)
             kind = "ubsan-" + re.sub(r"[^a-z#]+", "-", t).strip("-")[:48]
     for m in _SYM.finditer(log):
-        if "occa::" in m.group(2) and "okl_replay" not in m.group(3):
+        if _trim(m.group(2)).startswith("occa::") and "okl_replay" not in m.group(3):
             return kind, _trim(m.group(2))
     frames = []
     last = -1
@@ -209,7 +209,7 @@ def crash_site(log):
     if lib:
         mod = lib[0][0]
         for func, where in _addr2line(mod, [o for (_, o) in lib]):
-            if "occa::" in func:
+            if _trim(func).startswith("occa::"):       # not std::vector<occa::...>::operator[]
                 return kind, _trim(func)
     return kind, "?"
 
